@@ -168,3 +168,7 @@ mod tests {
         assert_eq!(squared, &expected);
     }
 }
+
+#[cfg(kani)]
+#[path = "/verif/kani/rten-simd/functional.rs"]
+mod verif_kani;
